@@ -301,6 +301,9 @@ class ApiRig:
             self.loop.settle()
             self.at = t.result()
 
+    def sock_connected(self) -> bool:
+        return self.net.current() is not None
+
     def now_ticks(self) -> int:
         return int(round(self.loop.time() * 1024))
 
